@@ -32,7 +32,10 @@ Definition f64_of_Z (z : Z) : spec_float := binary_normalize 53 1024 z 0 false.
 (* exact float for the integer ±p when p < 2^53 (the result of `floor` below 2^53) *)
 Definition norm_int (s : bool) (p : positive) : spec_float :=
   let d := Zpos (digits2_pos p) in
-  S754_finite s (Pos.shiftl p (Z.to_N (53 - d))) (d - 53).
+  match Zpos p * 2 ^ (53 - d) with
+  | Zpos m => S754_finite s m (d - 53)
+  | _ => S754_nan
+  end.
 
 (* f64::floor *)
 Definition f_floor (x : spec_float) : spec_float :=
